@@ -84,7 +84,14 @@ def _run_units(cfg, scratch, support_dir, tier, seed):
         if u not in order: order.append(u)
     for u in order:
         R.snapshot(scratch)          # every unit is spliced from a pristine copy of the current tree
-        ur = R.run_unit(u, scratch, support_dir, tier, seed)
+        try:
+            ur = R.run_unit(u, scratch, support_dir, tier, seed)
+        except R.Undecided as e:
+            # lost anchor / unsupported construct: this unit is undecided; bounded stand-ins and the other units still run
+            ur = R.UnitResult(); ur.name = u; ur.fatal = str(e); ur.report = {'functions': [], 'items': [], 'file_rules': [], 'ghost_clauses': []}
+            ur.attributed = []
+            results[u] = ur
+            continue
         # resource-outs are never a verdict: retry with doubled rlimit and other seeds
         att = R.attribute(ur)
         tries = 0
